@@ -91,6 +91,11 @@ def main(argv=None):
     cov.setdefault("transitions", stats.c.get("transitions", 0))
     cov.setdefault("traces_validated_against_impl", stats.c.get("executions", 0))
     cov.setdefault("samples", stats.samples)
+    if not cov["samples"]:
+        # (an exploration cut short by violations may not have reached its sampling point)
+        first = next((v for lst in stats.violations.values() for v in lst), None)
+        cov["samples"] = [{"note": "no regular sample was recorded; first violating case", "case": jsonable(first.case)}] if first \
+            else [{"note": "no regular sample was recorded", "counters": dict(sorted(stats.c.items()))}]
     cov.setdefault("exhaustive", not stats.capped)
     cov["distinct_outcomes"] = len(stats.outcomes) + stats.outcomes_overflow
     cov["counters"] = dict(sorted(stats.c.items()))
@@ -127,6 +132,10 @@ def main(argv=None):
                 print(f"  note: [{sig}] did not reproduce when replayed once more from {p} - possible nondeterminism")
         print(f"  [{sig}] {msg}")
         print(f"VIOLATION property={prop} replay={p}")
+    if n_new:
+        if not ok:
+            print(f"  note: evidence file does not validate: {how}")
+        return 1
     if not ok:
         print(f"evidence file does not validate: {how}")
         return 2
